@@ -52,11 +52,17 @@ func ReadTraffic(w *World, sc *Scenario) TrafficState {
 	if w.Get(svc, ns, AppName) {
 		ts.StableSvcExists = true
 		ts.StablePinned = svc.Spec.Selector[apps.DefaultDeploymentUniqueLabelKey]
+		if v := svc.Spec.Selector[apps.ControllerRevisionHashLabelKey]; v != "" {
+			ts.StablePinned = shortHash(v) // StatefulSet-like workloads are pinned through controller-revision-hash
+		}
 	}
 	csvc := &corev1.Service{}
 	if w.Get(csvc, ns, AppName+"-canary") {
 		ts.CanarySvcExists = true
 		ts.CanarySvcRevision = csvc.Spec.Selector[apps.DefaultDeploymentUniqueLabelKey]
+		if v := csvc.Spec.Selector[apps.ControllerRevisionHashLabelKey]; v != "" {
+			ts.CanarySvcRevision = shortHash(v)
+		}
 	}
 	switch sc.Traffic {
 	case "ingress":
